@@ -21,10 +21,10 @@ go build ./... >>$log 2>&1 || { echo "$name: BUILD-FAILS"; exit 1; }
 cp $seed/demo_test.go $pkg/zz_seed_demo_test.go
 echo "== demo with patch" >>$log
 go test -vet=off -count=1 -timeout 120s -run "$run" ./$pkg >>$log 2>&1; with=$?
-git stash -q -- . ':!*zz_seed_demo_test.go' >>$log 2>&1 || git checkout -q -- $(git diff --name-only)
+git apply -R $seed/patch.diff >>$log 2>&1 || { echo "$name: PATCH-DOES-NOT-REVERSE"; exit 1; }
 echo "== demo without patch" >>$log
 go test -vet=off -count=1 -timeout 120s -run "$run" ./$pkg >>$log 2>&1; without=$?
-git stash pop -q >>$log 2>&1
+git apply $seed/patch.diff >>$log 2>&1 || { echo "$name: PATCH-DOES-NOT-REAPPLY"; exit 1; }
 rm -f $pkg/zz_seed_demo_test.go
 full=skipped
 if [ -z "$skipfull" ]; then
